@@ -16,9 +16,26 @@ def units(tier):
                        bounds="every IMPLICIT_MUL token (NUMERIC followed by an identifier) of length <= %d" % scap)], route='B',
              trusted=["std::string stub (c_str, length, size, find_first_of, operator[]), strtol per ISO C 7.22.1.4, errno, fast_float::from_chars (opaque), integer()/real_double() ghost constructors",
                       "the NUMERIC token language is transcribed by hand from tokenizer.re into the acceptor is_numeric_token (the re2c DFA itself is out of CBMC's reach, DESIGN §2.5)"],
-             assumptions=["only the numeric-literal clause of C17 is covered: precedence/associativity, implicit multiplication and function-name tables live in bison's LALR tables and std::map<std::string, std::function> (not under contract)",
+             assumptions=["of C17 this unit covers the numeric-literal and implicit-multiplication clauses; precedence/associativity live in bison's LALR tables (not under contract); the function-name tables are unit name_tables",
                           "literals longer than the bound (incl. the strtol overflow path) and the HAVE_SYMENGINE_MPFR branch are not covered"])
-    return [u]
+    return [u, names_unit()]
+
+PC = 'symengine/parser/parser.cpp'
+TABLES = ['functions', 'double_arg_functions', 'multi_arg_functions', 'single_arg_boolean_functions', 'single_arg_boolean_boolean_functions',
+          'double_arg_boolean_functions', 'multi_arg_vec_boolean_functions', 'multi_arg_set_boolean_functions']
+
+def names_unit():
+    pieces = [Piece(PC, r'^\s*%s = \{' % t, region_end=r'^\s*\};', name='name table %s (initializer list)' % t, rules=[
+        R(r'^\s*(\w+) = \{', r'static const NameEntry tbl_\1[] = {', n=1, regex=True, why="std::map<const std::string, std::function<...>> initialised from a list -> array of the same rows in the same order"),
+        R(r'\{\s*"(\w+)"\s*,\s*(?:\(\w+\)\s*)?(\w+)\s*\}', r'{"\1", "\2"}', regex=True, why='{"name", [(overload cast)]f} -> {"name", "f"}: the function is named, not called; cast and std::function wrapping dropped')])
+        for t in TABLES]
+    b = "the eight finite name tables, every row (complete)"
+    es = [Entry(h, route='F', timeout=600, mem_gb=6, unwind=80, bounds=b) for h in ('h_name_tables_single', 'h_name_tables_other')]
+    return Unit('name_tables', 'C17', 'contracts/C17/name_tables.c', {'tables.inc': pieces}, es, lang='c', route='F', forbid_auto=False,
+                trusted=["std::map built from an initializer list keeps the first entry of a key and find() returns it (ISO C++ [map.cons], [associative.reqmts])",
+                         "the C++ compiler checks that each named function has the arity of its table (std::function signature); the table rows name the SymEngine functions of these identifiers"],
+                assumptions=["the dispatch on params.size() inside Parser::functionify (auto, std::function calls, range-for) and bison's rule that calls it are not under contract: only the tables it consults are",
+                             "name_spec.h is the specification of 'corresponding library function' (conventional names; unlisted names must follow the same-name / arcX->aX rule)"])
 
 def replay_args(obl, inputs, res):
     import re
@@ -30,6 +47,8 @@ def replay_args(obl, inputs, res):
             chars[int(m.group(1))] = v['data']
         if k == 'e.n' and 'data' in v:
             n = int(re.sub(r'[ul]+$', '', v['data']))
+    if 'functionify' in obl:
+        return [obl, "names=1"]
     if n is None:
         return None
     s = ""
